@@ -198,12 +198,19 @@ def main() -> None:
     start = int(a[a.index("--start") + 1]) if "--start" in a else 0
     stop = int(a[a.index("--stop") + 1]) if "--stop" in a else len(ms)
     workers = max(2, 16 // jobs)
+    if "--retest" in a:
+        # only the mutants that the repository's tests let through in an earlier campaign
+        prev = [json.loads(l) for l in open(a[a.index("--retest") + 1])]
+        keep = {(r["file"], r["desc"]) for r in prev if r["status"] != "killed-by-tests"}
+        idx = [i for i, m in enumerate(ms) if (m["file"], m["desc"]) in keep]
+    else:
+        idx = list(range(start, stop))
     done = set()
     if os.path.exists(out):
         for l in open(out):
             done.add(json.loads(l)["i"])
     with ThreadPoolExecutor(jobs) as ex, open(out, "a") as f:
-        futs = [ex.submit(run_one, i, ms[i], workers) for i in range(start, stop) if i not in done]
+        futs = [ex.submit(run_one, i, ms[i], workers) for i in idx if i not in done]
         for fu in futs:
             rec = fu.result()
             f.write(json.dumps(rec) + "\n")
